@@ -221,7 +221,10 @@ class RefTarget:
                 return conn["to_id"], conn["last_reply"]   # duplicate detection: replay, do not execute
         conn["last_seq"] = seq
         conn["n"] += 1
-        reply_cip = self._dispatch_cip(data[2:], "connected", conn)
+        if len(data) > conn["size"] and self.cfg.get("enforce_size", True) and len(data) > 2:
+            reply_cip = self.cip_reply(data[2], 0x15)     # too much data: a real target does not process it
+        else:
+            reply_cip = self._dispatch_cip(data[2:], "connected", conn)
         out = struct.pack("<H", seq) + reply_cip
         if len(out) > conn["size"]:
             self.audit("C04", "reply.too-large", f"solicited reply of {len(out)} bytes > negotiated {conn['size']}")
@@ -459,6 +462,7 @@ class RefPLC(RefTarget):
         self.plc_name = cfg.get("plc_name", "MainController")
         self.page_size = cfg.get("page_size", 480)
         self.tmpl_frag = cfg.get("tmpl_frag", 480)
+        self.room_refused = 0
         self.read_cap = cfg.get("read_cap")           # None -> whatever the connection allows
         self.bool_true = cfg.get("bool_true", 0x01)
         self.frag_round = cfg.get("frag_round", "element")
@@ -868,6 +872,26 @@ class RefPLC(RefTarget):
             replies.append(r)
         # reply size check (what this multi-service request solicits)
         body_len = 2 + 2 * n + sum(len(r) for r in replies)
+        room = self.cfg.get("multi_room")
+        if conn is not None and room is not None and room < conn["size"] and 2 + 4 + body_len > room and 2 + 4 + body_len <= conn["size"]:
+            # a target (or a bridge on the way) with less room than the connection size: read replies that do not fit are answered
+            # with "insufficient packet space"; the driver did nothing wrong, and every other member must be unaffected
+            fitted, used = [], 2 + 4 + 2 + 2 * n
+            for r in replies:
+                if used + len(r) > room and r[2] == 0 and r[0] in (0xCC, 0xD2):
+                    r = r[:2] + bytes([0x06, 0])
+                    any_err = True
+                    self.room_refused += 1
+                used += len(r)
+                fitted.append(r)
+            replies = fitted
+            out = struct.pack("<H", n)
+            pos = 2 + 2 * n
+            for r in replies:
+                out += struct.pack("<H", pos)
+                pos += len(r)
+            out += b"".join(replies)
+            return (self.cfg.get("multi_partial_status", 0x1E) if any_err else 0), [], out
         if conn is not None and 2 + 4 + body_len > conn["size"]:
             self.audit("C04", "multi.reply.too-large", f"multi-service reply needs {2 + 4 + body_len} bytes > negotiated {conn['size']}")
             # members that do not fit are answered with status 0x06 and no data
